@@ -104,8 +104,10 @@ func mutateAccounts(fsys apkfs.FullFS, ic *types.ImageConfiguration) error {
 				continue
 			}
 			// Create a version of the user's home directory rooted at our
-			// working directory.
-			targetHomedir := ue.HomeDir
+			// working directory. The path is cleaned so that its parent and its
+			// last element are what filepath.Dir and the file system agree on
+			// (a trailing slash made the parent the home directory itself).
+			targetHomedir := filepath.Clean(ue.HomeDir)
 
 			// Make sure a directory exists with the path we expect.
 			if fi, err := fsys.Stat(targetHomedir); err == nil {
